@@ -8,7 +8,7 @@
 From Coq Require Import List Arith Bool Reals QArith Lia Lra ZArith.
 From TLV Require Import Base.Shape Base.PyList Base.Tensor Base.Ops Base.RSum Model.Metrics Model.MetricsSrc Proofs.MetricsProofs
   Proofs.MetricsProofs2 Proofs.MetricsProofs3 Proofs.MetricsProofs4 Proofs.MetricsProofs5 Proofs.MetricsProofs6
-  Proofs.MetricsProofs7 Proofs.MetricsProofs8 Proofs.MetricsProofs9 Proofs.MetricsProofs10 Proofs.MetricsProofs11 Proofs.MetricsProofs12 Proofs.MetricsProofs13 Proofs.MetricsProofs14 Proofs.MetricsSrcTie.
+  Proofs.MetricsProofs7 Proofs.MetricsProofs8 Proofs.MetricsProofs9 Proofs.MetricsProofs10 Proofs.MetricsProofs11 Proofs.MetricsProofs12 Proofs.MetricsProofs13 Proofs.MetricsProofs14 Proofs.MetricsProofs15 Proofs.MetricsSrcTie.
 Import ListNotations.
 Local Close Scope Q_scope.
 Local Open Scope R_scope.
@@ -519,6 +519,13 @@ Theorem C20_source_tie_leverage : forall (F : Type) (Op : fops F) (low : bool) (
 Proof. exact @leverage_src_canonical. Qed.
 Print Assumptions C20_source_tie_leverage.
 
+Theorem C20_source_tie_cp_permute_factors : forall (F : Type) (Op : fops F) (ref : list (mat F)) (nas : list (list F))
+  (ts : list (list F * list (mat F) * list (list F))) (assign : mat F -> list nat),
+  cp_permute_factors_list_src Op canonical_pp ref nas ts assign = cp_permute_factors_list Op ref nas ts assign /\
+  forall fs w nbs, cp_permute_factors_src Op canonical_pp ref fs w nas nbs assign = cp_permute_factors Op ref fs w nas nbs assign.
+Proof. intros. split; [apply cp_permute_factors_list_src_canonical | intros; apply cp_permute_factors_src_canonical]. Qed.
+Print Assumptions C20_source_tie_cp_permute_factors.
+
 (* ---------- when the entry points fail ---------- *)
 (* congruence_coefficient (its model) rejects EXACTLY: lists of different lengths, an empty list, a matrix whose number of
    columns differs from that of the first one, a pair with different numbers of rows, a matrix with an all-zero column *)
@@ -587,6 +594,14 @@ Theorem C20_tsum_axes_step : forall (a : nat) (l : list nat) (t : tensor R), (fo
   tsum_axes Rops (a :: l) t = tsum_axes Rops l (tsum Rops (Some a) t) /\ tsum_axes Rops [] t = t.
 Proof. intros a l t H. split; [now apply tsum_axes_step | reflexivity]. Qed.
 Print Assumptions C20_tsum_axes_step.
+
+(* the order in which a tuple lists its axes is irrelevant: (0, 2), (2, 0), (-1, 0) ... reduce to the same tensors *)
+Theorem C20_tuple_axis_order_irrelevant : forall (axs axs' : list nat) (yt yp : tensor R), Permutation.Permutation axs axs' ->
+  MSE_axes Rops axs yt yp = MSE_axes Rops axs' yt yp /\
+  RMSE_axes Rops sqrt axs yt yp = RMSE_axes Rops sqrt axs' yt yp /\
+  reflective_correlation_axes Rops sqrt axs yt yp = reflective_correlation_axes Rops sqrt axs' yt yp.
+Proof. intros. now apply axes_order_irrelevant. Qed.
+Print Assumptions C20_tuple_axis_order_irrelevant.
 
 (* ---------- non-vacuity ---------- *)
 (* the oracle contract is satisfiable: the brute force itself meets it *)
